@@ -60,6 +60,9 @@ const (
 	RegCnt2 = 25 // s9: inner loop counter
 	RegSum  = 24 // s8: checksum accumulator
 	RegPtr2 = 23 // s7: second pointer
+	// s6: divisor of the fault probe (Profile.FaultProbe): 1 in the case's
+	// state; a harness that sets it to 0 turns the probe into a division by zero
+	RegProbe = 22
 )
 
 var poolCandidates = []int{5, 6, 7, 10, 11, 12, 28, 29, 8, 9, 13, 14, 1, 30, 31, 18}
@@ -91,6 +94,7 @@ type Profile struct {
 	SlowBranchPct int  // chance (in %) that a branch operand is produced by a load right before it
 	FreshLinePct  int  // chance (in %) that a memory access goes to a line not touched before
 	WidePoolPct   int  // chance (in %) of a wide register pool with destinations in rotation
+	FaultProbe    bool // emit one "div zero, zero, s6" at a drawn point (s6 = 1: no effect)
 }
 
 // Builder constructs a program concolically: it knows the concrete
@@ -747,10 +751,38 @@ func (b *Builder) Walk() {
 	}
 	iters := rapid.Int32Range(1, min32(maxIters, 48)).Draw(b.t, "iters")
 	data := b.dest("data")
+	// a hot line: one word outside the walked range is stored to before the loop
+	// and accessed in every iteration, so that its L1 line stays resident (and
+	// Modified) while the walk pushes everything else — its L3 parent on MVP-8
+	// included — out of the caches
+	hot := int32(-1)
+	hotStore := false
+	if !b.P.LoadsOnly && rapid.IntRange(0, 2).Draw(b.t, "hotline") == 0 {
+		lo, hi := start/64, (start+iters*stride+size-1)/64
+		var cands []int32
+		for ln := int32(0); ln < memSize/64; ln++ {
+			if ln < lo || ln > hi {
+				cands = append(cands, ln)
+			}
+		}
+		if len(cands) > 0 {
+			hot = cands[rapid.IntRange(0, len(cands)-1).Draw(b.t, "hotln")]*64 + 4*rapid.Int32Range(0, 15).Draw(b.t, "hotoff")
+			hotStore = rapid.Bool().Draw(b.t, "hotstore")
+			b.emit(ref.Ins{Op: "sw", Rs2: b.reg("hotsrc"), Rs1: 0, Imm: hot})
+			b.Meta["walk_hotline"]++
+		}
+	}
 	b.emit(ref.Ins{Op: "li", Rd: RegCnt, Imm: iters})
 	b.emit(ref.Ins{Op: "li", Rd: RegPtr, Imm: start})
 	l := b.label()
 	b.place(l)
+	if hot >= 0 {
+		if hotStore {
+			b.emit(ref.Ins{Op: "sw", Rs2: RegCnt, Rs1: 0, Imm: hot})
+		} else {
+			b.emit(ref.Ins{Op: "lw", Rd: RegPtr2, Rs1: 0, Imm: hot})
+		}
+	}
 	switch kind {
 	case 0:
 		b.emit(ref.Ins{Op: ld, Rd: data, Rs1: RegPtr, Imm: 0})
@@ -843,8 +875,20 @@ func Program(t *rapid.T, p Profile) *Case {
 	if (p.W.Call > 0 || p.W.Jump > 0) && rapid.IntRange(0, 11).Draw(t, "fnfirst") == 0 {
 		fn = b.fnFirst()
 	}
+	probeAt := -1
+	if p.FaultProbe {
+		c.Regs[RegProbe] = 1
+		b.Init = c.Init()
+		probeAt = rapid.IntRange(1, target).Draw(t, "probeat")
+	}
 	for b.Len() < target && b.Len() < 240 {
 		b.Construct()
+		if probeAt >= 0 && b.Len() >= probeAt && b.depth == 0 {
+			// no architectural effect while s6 != 0
+			b.emit(ref.Ins{Op: "div", Rd: 0, Rs1: 0, Rs2: RegProbe})
+			b.Meta["faultprobe"]++
+			probeAt = -1
+		}
 		if p.MaxDyn > 0 && b.State().Steps > p.MaxDyn {
 			break
 		}
